@@ -166,6 +166,12 @@ func (g *registrar) exec(res *regResult) {
 		case op.Fail == "cancel":
 			cancel()
 			mr.sim.Count(cRegFail)
+		case op.Fail == "refl:end":
+			// every answer is delivered, and the stream then ends with an
+			// error status: the registration may succeed or fail - as one
+			b.refl.setEndErr(true)
+			defer b.refl.setEndErr(false)
+			mr.sim.Count(cRegFail)
 		case strings.HasPrefix(op.Fail, "refl:"):
 			j, _ := strconv.Atoi(reflJ(op.Fail))
 			if strings.HasSuffix(op.Fail, "e") {
